@@ -68,3 +68,69 @@ fn libcnb_package_create(nodes: Vec<N>) -> Result<petgraph_graph<N>, String> {
 }
 #[allow(non_camel_case_types)]
 type petgraph_graph<T> = petgraph::Graph<T, ()>;
+
+// C13 bounded stand-in, workspace level: the PUBLIC libcnb-package API on generated workspaces of composite buildpacks whose package.toml
+// mixes libcnb: dependencies with foreign URIs in every position.
+pub fn workspace(thorough: bool) -> Report {
+    use libcnb_package::buildpack_dependency_graph::build_libcnb_buildpacks_dependency_graph;
+    use libcnb_package::dependency_graph::get_dependencies as gd;
+    use std::fs;
+    let n = if thorough { 4usize } else { 3 };
+    let mut r = Report::new(
+        "every labelled DAG on N composite buildpacks written as a real workspace (buildpack.toml + package.toml) x 5 placements of foreign dependencies (none, docker:// first, relative path first, one between every two libcnb: entries, last): build_libcnb_buildpacks_dependency_graph yields one node per buildpack and exactly the declared libcnb: edges, get_dependencies on it returns exactly roots + transitive dependencies, dependencies first, for every ordered selection of up to 2 roots; a libcnb: reference to an unknown id is an error; non-trivial = graphs with at least one edge",
+        &format!("N = {n} buildpacks"),
+    );
+    let pairs: Vec<(usize, usize)> = (0..n).flat_map(|i| (0..n).filter(move |j| *j != i).map(move |j| (i, j))).collect();
+    for mask in 0u32..(1 << pairs.len()) {
+        let mut deps: Vec<Vec<usize>> = vec![vec![]; n];
+        for (b, (i, j)) in pairs.iter().enumerate() { if mask >> b & 1 == 1 { deps[*i].push(*j); } }
+        let mut indeg = vec![0; n]; for d in &deps { for x in d { indeg[*x] += 1; } }
+        let mut q: Vec<usize> = (0..n).filter(|i| indeg[*i] == 0).collect(); let mut seen = 0;
+        while let Some(x) = q.pop() { seen += 1; for d in &deps[x] { indeg[*d] -= 1; if indeg[*d] == 0 { q.push(*d); } } }
+        if seen != n { continue; }
+        for placement in 0..5 {
+            if mask == 0 && placement > 1 { continue; }
+            r.evaluations += 1; if mask != 0 { r.nontrivial += 1; }
+            let t = tempfile::tempdir().unwrap(); let root = t.path();
+            for i in 0..n {
+                let d = root.join(format!("buildpacks/bp{i}")); fs::create_dir_all(&d).unwrap();
+                fs::write(d.join("buildpack.toml"), format!("api = \"0.10\"\n[buildpack]\nid = \"demo/bp{i}\"\nversion = \"0.0.1\"\n[[order]]\n[[order.group]]\nid = \"x/y\"\nversion = \"1.0.0\"\n")).unwrap();
+                let mut uris: Vec<String> = vec![];
+                if placement == 1 { uris.push("docker://docker.io/heroku/example:1.2.3".into()); }
+                if placement == 2 { uris.push("../vendor/bash-buildpack".into()); }
+                for (k, x) in deps[i].iter().enumerate() { if placement == 3 && k > 0 { uris.push("https://example.com/bp.tgz".into()); } uris.push(format!("libcnb:demo/bp{x}")); }
+                if placement == 4 { uris.push("urn:cnb:registry:heroku/other".into()); }
+                fs::write(d.join("package.toml"), format!("[buildpack]\nuri = \".\"\n{}", uris.iter().map(|u| format!("[[dependencies]]\nuri = \"{u}\"\n")).collect::<String>())).unwrap();
+            }
+            let input = format!("dependencies {deps:?}, foreign URI placement {placement} (0 none, 1 docker first, 2 path first, 3 between, 4 last)");
+            let graph = match build_libcnb_buildpacks_dependency_graph(root) { Ok(g) => g, Err(e) => { r.violation("workspace_graph", "the dependency graph of a well-formed workspace could not be built", input, "Ok".into(), e.to_string()); continue; } };
+            let idx_of = |id: &str| -> usize { id.rsplit("bp").next().unwrap().parse().unwrap() };
+            let mut got_edges: Vec<(usize, usize)> = graph.edge_indices().map(|e| { let (a, b) = graph.edge_endpoints(e).unwrap(); (idx_of(&graph[a].buildpack_id.to_string()), idx_of(&graph[b].buildpack_id.to_string())) }).collect();
+            got_edges.sort();
+            let mut want_edges: Vec<(usize, usize)> = deps.iter().enumerate().flat_map(|(i, d)| d.iter().map(move |x| (i, *x))).collect(); want_edges.sort();
+            if graph.node_count() != n || got_edges != want_edges { r.violation("workspace_graph", "one node per buildpack and exactly the declared libcnb: edges (buildpack -> dependency)", input.clone(), format!("{n} nodes, edges {want_edges:?}"), format!("{} nodes, edges {got_edges:?}", graph.node_count())); continue; }
+            let ids: Vec<u8> = (0..n as u8).collect(); let mut sels = vec![];
+            for k in 1..=2usize.min(n) { perms(&ids, k, &mut vec![], &mut sels); }
+            for sel in sels {
+                let roots: Vec<_> = sel.iter().map(|i| graph.node_weights().find(|w| idx_of(&w.buildpack_id.to_string()) == *i as usize).unwrap()).collect();
+                let got: Vec<usize> = match gd(&graph, &roots) { Ok(v) => v.iter().map(|w| idx_of(&w.buildpack_id.to_string())).collect(), Err(e) => { r.violation("workspace_order", "get_dependencies failed", format!("{input} roots {sel:?}"), "Ok".into(), e.to_string()); continue; } };
+                let mut reach = BTreeSet::new(); let mut stack: Vec<usize> = sel.iter().map(|x| *x as usize).collect();
+                while let Some(x) = stack.pop() { if reach.insert(x) { for d in &deps[x] { stack.push(*d); } } }
+                let set: BTreeSet<usize> = got.iter().cloned().collect();
+                let mut ok = set == reach && got.len() == set.len();
+                for (pos, x) in got.iter().enumerate() { for d in &deps[*x] { if !got[..pos].contains(d) { ok = false; } } }
+                if !ok { r.violation("workspace_order", "order is not exactly roots + transitive dependencies, each once, dependencies first", format!("{input} roots {sel:?}"), format!("set {reach:?}, dependencies first"), format!("{got:?}")); }
+            }
+        }
+    }
+    // a libcnb: reference to a buildpack that is not in the workspace, listed after a foreign URI
+    {
+        r.evaluations += 1; r.nontrivial += 1;
+        let t = tempfile::tempdir().unwrap(); let d = t.path().join("bp"); fs::create_dir_all(&d).unwrap();
+        fs::write(d.join("buildpack.toml"), "api = \"0.10\"\n[buildpack]\nid = \"demo/bp0\"\nversion = \"0.0.1\"\n[[order]]\n[[order.group]]\nid = \"x/y\"\nversion = \"1.0.0\"\n").unwrap();
+        fs::write(d.join("package.toml"), "[buildpack]\nuri = \".\"\n[[dependencies]]\nuri = \"docker://img/x\"\n[[dependencies]]\nuri = \"libcnb:demo/ghost\"\n").unwrap();
+        if build_libcnb_buildpacks_dependency_graph(t.path()).is_ok() { r.violation("workspace_missing_dependency", "a libcnb: dependency on a buildpack that does not exist is an error", "bp0 -> [docker://img/x, libcnb:demo/ghost]".into(), "Err".into(), "Ok".into()); }
+    }
+    r.samples.push("bp0 -> [docker://.., libcnb:demo/bp1], bp1 -> [../vendor/.., libcnb:demo/bp2]; roots [bp0] -> [bp2, bp1, bp0]".into());
+    r
+}
